@@ -1144,3 +1144,73 @@ func TestCoreScripts(t *testing.T) {
 	sum.Traces, sum.Lines = tf.N, tf.L
 	vh.WriteJSON(filepath.Join(out, "core_scripts.json"), sum)
 }
+
+// TestCoreRtoForge (C18, second clause): acknowledgements whose echoed timestamp is far in the past -- days, weeks, the whole
+// non-negative range of the 32-bit signed difference -- arrive as first RTT sample and after an ordinary history of small
+// samples, interleaved with genuine traffic. The values overflow TLC's integers inside the estimator's arithmetic, so these
+// traces are judged by the monitors only (C18_RtoBounds on the observed state after every step), not by conformance.
+func TestCoreRtoForge(t *testing.T) {
+	out := vh.OutDir(t)
+	rng := rand.New(rand.NewSource(vh.Seed()*49979687 + 17))
+	runs := vh.EnvInt("CORE_RUNS", 24)
+	tf, err := vh.OpenTraceFile(filepath.Join(out, "core_rtoforge.ndjson"))
+	vh.Must(err)
+	sum := newSummary()
+	far := []int{-(1 << 31) + 1, -(1 << 31) + 100, -2100000000, -2000000000, -1900000000, -(1 << 30) - 1, -(1 << 30), -(1 << 30) + 1, -1000000000,
+		-900000000, -800000000, -715827883, -715827882, -700000000, -600000000, -(1 << 29), -(1 << 28), -86400000, -3600000}
+	for r := 0; r < runs; r++ {
+		cfg := randCfg(rng, false)
+		synctest.Test(t, func(t *testing.T) {
+			w := NewWorld(cfg, boundaryOffset(rng), boundaryOffset(rng), boundaryClock(rng))
+			tr := &vh.Trace{}
+			do := func(a Act) Obs {
+				if !w.Enabled(a) {
+					return Obs{}
+				}
+				obs, in := w.Step(a)
+				if a.Name == "Recv" && obs.Ret == -1 {
+					return obs
+				}
+				record(tr, w, a, obs, in)
+				sum.Steps++
+				sum.Acts[a.Name]++
+				if obs.Panic != "" {
+					sum.Panics = append(sum.Panics, fmt.Sprintf("rtoforge%d %+v: %s", r, a, obs.Panic))
+				}
+				return obs
+			}
+			mss := cfg.Mtu - 24
+			warm := r%2 == 1 // an ordinary history of small samples first
+			for step := 0; step < 120 && len(sum.Panics) == 0; step++ {
+				if warm || step > 10 {
+					do(Act{Name: "Send", E: 1, A: 1 + rng.Intn(2*mss)})
+					do(Act{Name: "Flush", E: 1})
+					for len(w.Net) > 0 {
+						do(Act{Name: "Deliver", E: w.Net[0].dst, A: 1})
+					}
+					do(Act{Name: "Recv", E: 2, A: 70000})
+					do(Act{Name: "Flush", E: 2})
+					for len(w.Net) > 0 {
+						do(Act{Name: "Deliver", E: w.Net[0].dst, A: 1})
+					}
+				}
+				do(Act{Name: "Tick", A: []int{1, 10, cfg.Interval, 100, 1000}[rng.Intn(5)]})
+				if !warm || step > 10 {
+					dts := far[rng.Intn(len(far))]
+					if rng.Intn(4) == 0 {
+						dts = -rng.Intn(1<<31 - 1)
+					}
+					do(Act{Name: "Forge", E: 1, F: map[string]int{"cmd": 82, "frg": 0, "wnd": 32, "dts": dts, "dsn": rng.Intn(3), "duna": 0, "len": 0, "bad": 0}})
+					sum.Kinds["far-past-ack-ts"]++
+				}
+			}
+			tf.WriteTrace(map[string]any{"cfg": cfg, "src": fmt.Sprintf("rtoforge%d", r), "clean": false, "forged": true}, tr)
+			sum.Behaviours++
+			sum.Nontrivial++
+			active = nil
+		})
+	}
+	vh.Must(tf.Close())
+	sum.Traces, sum.Lines = tf.N, tf.L
+	vh.WriteJSON(filepath.Join(out, "core_rtoforge.json"), sum)
+}
